@@ -1,1 +1,76 @@
-/-! Property theorems for C12 (only property-level statements and non-vacuity examples live here). -/
+import SpoxModel.Lemmas.Renames
+import SpoxModel.Lemmas.Front
+import SpoxModel.Generated.RenamesIR
+/-!
+# C12 — build and inline are pure, repeatable and independent of process history
+
+Property theorems only.
+-/
+namespace C12
+open Renames Front
+
+/-- Obligation tying the theorems to the source: the IR extracted from `_public.py` on this run has
+    the accepted shape. -/
+theorem generated_good : goodShape Generated.RenamesIR.ir = true := by decide
+
+/-- **Full strength**: for any accepted IR, any keyword dictionary (also with one Var under several
+    keys, also with Vars that already had names), and any block body that itself leaves names
+    alone — whether it returns or raises — every Var's `_name` afterwards equals its value before. -/
+theorem renames_restored_shape {β} (ir : List Stmt) (h : goodShape ir = true)
+    (kw : List (String × Nat)) (body : Store → Store × Outcome × β)
+    (hbody : ∀ s, (body s).1 = s) (s : Store) :
+    (run ir kw body s).1 = s := by
+  sorry
+
+/-- … for `_temporary_renames` as it is in /repo now. -/
+theorem renames_restored {β} (kw : List (String × Nat)) (body : Store → Store × Outcome × β)
+    (hbody : ∀ s, (body s).1 = s) (s : Store) :
+    (run Generated.RenamesIR.ir kw body s).1 = s :=
+  renames_restored_shape _ generated_good kw body hbody s
+
+/-- Inside the block every listed Var carries its key (no Var listed twice). -/
+theorem names_in_force {β} (kw : List (String × Nat)) (body : Store → Store × Outcome × β) (s : Store)
+    (h : (kw.map (·.2)).Nodup) :
+    run Generated.RenamesIR.ir kw body s =
+      run Generated.RenamesIR.ir kw (fun _ => body (enter kw s)) s ∧
+    ∀ k v, (k, v) ∈ kw → enter kw s v = some k := by
+  sorry
+
+/-- The pinned shape (`pre[arg] = arg._name`) leaks when one Var occurs under two keys. -/
+theorem renames_pinned_counterexample :
+    (run (β := Unit) pinnedIR [("a", 0), ("b", 0)] (fun s => (s, .exn, ())) (fun _ => none)).1 0 = some "a" := by
+  decide
+
+/-- Without `finally` a raising body leaves the temporary name behind. -/
+theorem renames_nofinally_counterexample :
+    (run (β := Unit) noFinallyIR [("a", 0)] (fun s => (s, .exn, ())) (fun _ => none)).1 0 = some "a" := by
+  decide
+
+/-- `build` leaves every Var's name as it found it, whatever the outcome (model, KeyError,
+    TypeError, BuildError, ScopeError …): a failed build leaves no trace in `_name`. -/
+theorem build_restores_names (P : List Obj) (π : List Nat → List Nat) (fixed : Bool) (req : Request)
+    (s : Store) : (build Generated.RenamesIR.ir P π fixed req s).1 = s := by
+  sorry
+
+/-- `build` does not depend on the iteration order of Python sets (object addresses, hash seed):
+    any two permutation functions give the same result — model, or error class. -/
+theorem build_deterministic (P : List Obj) (π π' : List Nat → List Nat)
+    (hπ : ∀ l, (π l).Perm l) (hπ' : ∀ l, (π' l).Perm l) (req : Request) (s : Store)
+    (hkeys : (req.inputs.map (·.name)).Nodup)
+    (hunnamed : ∀ v, v ∉ req.inputs.map (·.obj) → s v = none) :
+    build Generated.RenamesIR.ir P π true req s = build Generated.RenamesIR.ir P π' true req s := by
+  sorry
+
+def exP : List Obj :=
+  [⟨true, false, "1:[]", [1, 0], []⟩, ⟨true, true, "1:[]", [], []⟩, ⟨true, true, "7:[]", [], []⟩]
+def exReq : Request := ⟨[⟨"a", 0⟩, ⟨"b", 1⟩], [⟨"y", 2⟩], true⟩
+def inputsOf (r : Except Err Model) : Option (List VInfo) :=
+  match r with | .ok m => some m.inputs | .error _ => none
+
+/-- Before the fix (`fixed = false`) the result did depend on the set order. -/
+theorem build_deterministic_counterexample :
+    inputsOf (build Generated.RenamesIR.ir exP id false exReq (fun _ => none)).2 ≠
+      inputsOf (build Generated.RenamesIR.ir exP List.reverse false exReq (fun _ => none)).2 := by
+  decide
+
+end C12
